@@ -659,6 +659,8 @@ host_read_d	(SF_PRIVATE *psf, double *ptr, sf_count_t len)
 		return readcount ;
 		} ;
 
+	/* Only endswap (and report) what was actually read. */
+	len = readcount ;
 	bufferlen = SENSIBLE_LEN ;
 	while (len > 0)
 	{	if (len < bufferlen)
